@@ -40,6 +40,42 @@ func (c c11Config) String() string {
 	return fmt.Sprintf("O%d/modules-%s/listdefs-%s", c.opt, map[bool]string{false: "linked", true: "separate"}[c.sepMods], map[bool]string{false: "linked", true: "separate"}[c.sepList])
 }
 
+// c11DiffTag names what the deviating configurations have in common, independently of which
+// configurations the tier explores: "modules-separate" (exactly the configurations with separately
+// compiled modules deviate), "O<n>" (exactly those of one optimisation level), "listdefs-separate";
+// otherwise the first deviating configuration.
+func c11DiffTag(all, diff []c11Config, first string) string {
+	exactly := func(pred func(c11Config) bool) bool {
+		n := 0
+		for _, c := range all[1:] {
+			if pred(c) {
+				n++
+			}
+		}
+		if n != len(diff) || pred(all[0]) {
+			return false
+		}
+		for _, c := range diff {
+			if !pred(c) {
+				return false
+			}
+		}
+		return true
+	}
+	if exactly(func(c c11Config) bool { return c.sepMods }) {
+		return "modules-separate"
+	}
+	for _, o := range []uint{0, 1, 2} {
+		if exactly(func(c c11Config) bool { return c.opt == o }) {
+			return fmt.Sprintf("O%d", o)
+		}
+	}
+	if exactly(func(c c11Config) bool { return c.sepList }) {
+		return "listdefs-separate"
+	}
+	return first
+}
+
 func c11Configs(tier string) []c11Config {
 	var out []c11Config
 	for _, o := range []uint{0, 1, 2} {
@@ -193,9 +229,11 @@ func runC11(tier string) int {
 		// compare all configurations with the first one
 		ref := obs[cfgs[0]]
 		diffs := []string{}
+		var diffCfgs []c11Config
 		for _, cfg := range cfgs[1:] {
 			if obs[cfg] != ref {
 				diffs = append(diffs, cfg.String())
+				diffCfgs = append(diffCfgs, cfg)
 			}
 		}
 		mu.Lock()
@@ -215,7 +253,7 @@ func runC11(tier string) int {
 			} else {
 				files["source_dir.txt"] = p.srcDir + "\n" + p.mainRel
 			}
-			c.Violation("C11:differs:"+p.name+":"+diffs[0], "program "+p.name+" behaves differently in "+strings.Join(diffs, ", ")+" than in "+cfgs[0].String()+"\n"+detail, files)
+			c.Violation("C11:differs:"+p.name+":"+c11DiffTag(cfgs, diffCfgs, diffs[0]), "program "+p.name+" behaves differently in "+strings.Join(diffs, ", ")+" than in "+cfgs[0].String()+"\n"+detail, files)
 		} else if p.expected != nil && ref.build == "" && (ref.stdout != *p.expected || ref.exit != 0) {
 			// equally wrong everywhere: not C11's finding (C01/C05/C08 own it), but it must not stay silent
 			mu.Lock()
